@@ -8,6 +8,8 @@ result term - hence equal under every interpretation of the primitives, CodeSemP
 effect on the arguments must equal a direct node-by-node evaluation of the real graph and einx's
 own result; (3) the code object of the cached callable must equal the re-executed text's."""
 import json
+import os
+import re
 
 import numpy as np
 
@@ -312,8 +314,44 @@ def many_tensor_calls(rng, n):
     return out
 
 
+def names_correspondence(ctx):
+    """the Gallina model of the name stream (Model/Names.v over the regenerated alphabet) against the generator names() itself:
+    its source, cut out of compile() by the translator, is executed next to the model for several sets of reserved names"""
+    import builtins
+    import itertools
+    import keyword
+    path = os.path.join(common.COQ, "theories", "Gen", "names_kernel.py.txt")
+    try:
+        src = open(path).read()
+    except OSError as e:
+        ctx.tie_breaks.append("name stream correspondence: the translator did not write the generator's source: " + str(e))
+        return
+    base = set(keyword.kwlist) | set(dir(builtins))
+    sets = [set(), base, base | {"np", "const1", "a", "b", "z", "aa", "zz", "aaa"}, {"a", "c", "ab", "az", "ba", "zz", "aaa", "aab"},
+            base | {"".join(ctx.rng.choice("abcdefghijklmnopqrstuvwxyz") for _ in range(ctx.rng.randint(1, 3))) for _ in range(200)}]
+    n = 800 if ctx.tier == "quick" else 20000
+    lines, expected = [], []
+    for res in sets:
+        ns = {"itertools": itertools, "reserved_names": res}
+        exec(src, ns, ns)
+        gen = ns["names"]()
+        expected.append([next(gen) for _ in range(n)])
+        lines.append(sx(["names_take", [n, sorted(r for r in res if re.fullmatch(r"[A-Za-z0-9_.\-]+", r))]]))
+    outs = ctx.model.batch(lines)
+    agree = 0
+    for res, exp, got in zip(sets, expected, outs):
+        if got == exp:
+            agree += 1
+        else:
+            k = next((i for i, (x, y) in enumerate(zip(exp, got)) if x != y), min(len(exp), len(got))) if isinstance(got, list) else 0
+            ctx.report({"kind": "name_stream_differs_from_model"}, {"reserved": sorted(res)[:50], "first_difference_at": k,
+                                                                    "impl": exp[max(0, k - 2):k + 3], "model": got[max(0, k - 2):k + 3] if isinstance(got, list) else got})
+    ctx.coverage["name_stream_model_vs_impl"] = {"reserved_sets": len(sets), "names_per_set": n, "agree": agree}
+
+
 def run(ctx):
     import einx  # noqa: F401
+    names_correspondence(ctx)
     n = 300 if ctx.tier == "quick" else 8000
     cases = [gencalls.gen_call(ctx.rng) for _ in range(n)] + many_tensor_calls(ctx.rng, 14 if ctx.tier == "quick" else 210)
     res = common.pmap(_work, cases)
